@@ -1,0 +1,55 @@
+//! Verification hooks (feature `verif-hooks`; off by default, additive only).
+//!
+//! Thin `pub` wrappers over private kernels so an external harness can drive
+//! every dispatch path directly instead of only the one the host CPU selects.
+//! Nothing here changes behaviour; with the feature off this module does not
+//! exist.
+
+/// CTZ-loop select (the portable fallback behind `select_in_word`).
+pub fn select_in_word_ctz(x: u64, k: u32) -> u32 {
+    crate::util::broadword::verif_select_in_word_ctz(x, k)
+}
+
+/// Broadword/SWAR select.
+pub fn select_in_word_broadword(x: u64, k: u32) -> u32 {
+    crate::util::broadword::select_in_word_broadword(x, k)
+}
+
+/// BMI2 PDEP select; `None` when the host has no BMI2.
+pub fn select_in_word_pdep(x: u64, k: u32) -> Option<u32> {
+    #[cfg(all(target_arch = "x86_64", feature = "std"))]
+    {
+        crate::util::simd::x86::verif_select_in_word_pdep(x, k)
+    }
+    #[cfg(not(all(target_arch = "x86_64", feature = "std")))]
+    {
+        let _ = (x, k);
+        None
+    }
+}
+
+/// Byte-table select used by the broadword kernel.
+pub fn select_in_byte(byte: u8, k: u32) -> u32 {
+    crate::util::table::select_in_byte(byte, k)
+}
+
+/// Dispatching 8-word block popcount used by `scan_select`.
+pub fn block_popcount(block: &[u64]) -> usize {
+    crate::bits::verif_block_popcount(block)
+}
+
+/// AVX2 8-word block popcount; `None` when the host has no AVX2.
+pub fn block_popcount_avx2(block: &[u64]) -> Option<usize> {
+    crate::bits::verif_block_popcount_avx2(block)
+}
+
+/// JSON escape scanner with the x86 tier forced (`use_avx2 = false` → SSE2).
+/// `None` when the tier is not available in this build / on this host.
+pub fn find_json_escape_tier(bytes: &[u8], start: usize, use_avx2: bool) -> Option<usize> {
+    crate::util::simd::escape::verif_find_json_escape_tier(bytes, start, use_avx2)
+}
+
+/// Portable scalar JSON escape scanner (the fallback of every build).
+pub fn find_json_escape_scalar(bytes: &[u8], start: usize) -> usize {
+    crate::util::simd::escape::verif_find_json_escape_scalar(bytes, start)
+}
